@@ -6,7 +6,15 @@ import asyncio, contextlib, importlib.util, inspect, itertools, json, os, shutil
 RULE = ('exhaustive: every utility decorator x {def, async def} x signature shapes {positional, keyword-only, *args/**kwargs, method, mixed} '
         'x call styles (positional / keyword / mixed / listed-keyword / colliding keywords / arity near-misses) x body outcomes {return, return an '
         'object equal to the decorator parameter, raise Exception subclass, raise BaseException subclass}; does_same_as_function x other_func '
-        '{sync, async} x {identical, equal-not-identical, different, raising}; rename rule sets incl. duplicates; overrides x {base has / lacks the name}; '
+        '{sync, async} x {identical, equal-not-identical, different, raising}; rename rule sets incl. duplicates; overrides x 41 kinds of base class (member bound to a function / None / falsy and truthy values / property / static / '
+        'class method / slot / descriptor returning None or 0, in the class, a parent, a grandparent, a second base, shadowing '
+        'in both directions, bound on the metaclass or its parent only, answered by a metaclass __getattr__, listed or hidden '
+        'by a metaclass __dir__, instance-level __dir__ / __getattr__ / attribute, annotation only, ABC, dict subclass, '
+        'dataclass defaults, implicit __hash__ = None of a class defining __eq__) x member under test {the decorated name, '
+        'another name} in the call programs, and the finite grid kind x member x decorated name {ordinary, __hash__, __eq__, '
+        '__init__, __call__, __str__, __len__, mro, __subclasses__, register, keys} x {def, async def} as decoration-only '
+        'programs (thorough: every pair of names); the class lookup of the model (dir / hasattr / __dict__ / getattr is None / '
+        'truthy / callable) is compared with the real interpreter on every such case; '
         'all ordered pairs of the 11 stackable decorators x flavours x shapes with a 4-call history; trace_class/timer_class x member kinds '
         '{method, staticmethod, classmethod, property} x access {instance, class}; metadata/coroutine-ness of pedantic, validate, in_subprocess, retry, '
         'safe_(async_)contextmanager; seeded: stacks of depth 3 and call histories of length <= 20 (counter).  '
@@ -19,7 +27,12 @@ ASSUMPTIONS = ['argument / result objects have total, side-effect-free __repr__,
 TRUSTED = ['functools.wraps copies __name__/__qualname__/__doc__/__module__/__dict__ and sets __wrapped__ (CPython); the model takes "carries @wraps(<decorated function>)" as "metadata preserved"',
            'inspect.iscoroutinefunction(f) is true exactly for `async def` functions that are not generators',
            'Python argument binding is modelled (PedVerif.Utility.bind) and exercised against the twin on every case',
-           'the member loop of for_all_methods (getattr / setattr of a plain function) is modelled by hand; the translator only re-reads the facts it relies on']
+           'the member loop of for_all_methods (getattr / setattr of a plain function) is modelled by hand; the translator only re-reads the facts it relies on',
+           'the class description handed to the model for `overrides` is read off the raw `__mro__` / `__dict__` of the generated classes and of their '
+           'metaclass (descriptor protocol applied once per entry); attribute lookup on classes (PedVerif.Utility.ClassDesc.dir / getattr / owns) is an '
+           'environment model of CPython 3.12 `type.__dir__` / `type.__getattribute__` without data descriptors on the metaclass, compared with the real '
+           'dir / hasattr / getattr on every overrides case; "the base class has the name" is read as: listed by the class (bound in a class body along '
+           'its MRO, or returned by a metaclass `__dir__`)']
 
 KEY = {'self': 1, 'a': 2, 'b': 3, 'c': 4, 'd': 5, 'zz': 6, 'yy': 7, 'cls': 8}
 KEYNAME = {v: k for k, v in KEY.items()}
@@ -101,15 +114,133 @@ def other_script(kinds, wscript, first_id=300):
     return out
 
 
+# ------------------------------------------------------------------ base classes for `overrides`
+
+# interned attribute names (members of generated classes and names of decorated functions)
+MEMBER_KEY = {'target': 100, 'something_else': 101, 'handler': 102, '__hash__': 103, '__eq__': 104, 'mro': 105, '__call__': 106,
+              '__init__': 107, 'keys': 108, '__dir__': 109, '__getattr__': 110, '__slots__': 111, '__str__': 112, '__len__': 113,
+              '__subclasses__': 114, 'register': 115, '__class_getitem__': 116, '__init_subclass__': 117}
+# names a decorated function is given in the decoration-only programs
+FNAMES = ['target', 'handler', '__hash__', '__eq__', 'mro', '__call__', '__init__', 'keys', '__str__', '__len__', '__subclasses__', 'register']
+_FN = 'def {n}(self, *args, **kwargs):\n        return 1\n'
+# variant -> (source defining `Base`; `{n}` is the member under test, usable in the call programs (instances behave like plain objects))
+BASES = {
+    'plain': ('class Base:\n    ' + _FN, True),
+    'none_valued': ('class Base:\n    {n} = None\n', True),
+    'falsy_zero': ('class Base:\n    {n} = 0\n', True),
+    'falsy_str': ("class Base:\n    {n} = ''\n", True),
+    'falsy_false': ('class Base:\n    {n} = False\n', True),
+    'falsy_tuple': ('class Base:\n    {n} = ()\n', True),
+    'truthy_value': ('class Base:\n    {n} = 1\n', True),
+    'prop': ('class Base:\n    @property\n    def {n}(self):\n        return 1\n', True),
+    'static': ('class Base:\n    @staticmethod\n    def {n}(*args, **kwargs):\n        return 1\n', True),
+    'classm': ('class Base:\n    @classmethod\n    def {n}(cls, *args, **kwargs):\n        return 1\n', True),
+    'parent': ('class G:\n    ' + _FN + 'class Base(G):\n    pass\n', True),
+    'grandparent': ('class GG:\n    ' + _FN + 'class G(GG):\n    pass\nclass Base(G):\n    pass\n', True),
+    'grand_none': ('class GG:\n    {n} = None\nclass G(GG):\n    pass\nclass Base(G):\n    pass\n', True),
+    'mixin_second': ('class G:\n    pass\nclass Mix:\n    ' + _FN + 'class Base(G, Mix):\n    pass\n', True),
+    'shadow_none': ('class G:\n    ' + _FN + 'class Base(G):\n    {n} = None\n', True),
+    'shadow_fn': ('class G:\n    {n} = None\nclass Base(G):\n    ' + _FN, True),
+    'meta_only': ('class Meta(type):\n    def {n}(cls, *args, **kwargs):\n        return 1\nclass Base(metaclass=Meta):\n    pass\n', True),
+    'meta_none': ('class Meta(type):\n    {n} = None\nclass Base(metaclass=Meta):\n    pass\n', True),
+    'meta_parent': ('class M0(type):\n    def {n}(cls, *args, **kwargs):\n        return 1\nclass Meta(M0):\n    pass\nclass Base(metaclass=Meta):\n    pass\n', True),
+    'meta_and_own_none': ('class Meta(type):\n    def {n}(cls, *args, **kwargs):\n        return 1\nclass Base(metaclass=Meta):\n    {n} = None\n', True),
+    'meta_of_parent': ('class Meta(type):\n    def {n}(cls, *args, **kwargs):\n        return 1\nclass G(metaclass=Meta):\n    pass\nclass Base(G):\n    pass\n', True),
+    'dir_adds': ("class Meta(type):\n    def __dir__(cls):\n        return list(super().__dir__()) + ['{n}']\nclass Base(metaclass=Meta):\n    pass\n", True),
+    'dir_hides': ("class Meta(type):\n    def __dir__(cls):\n        return [x for x in super().__dir__() if x != '{n}']\nclass Base(metaclass=Meta):\n    " + _FN, True),
+    'instance_dir': ("class Base:\n    def __dir__(self):\n        return ['{n}']\n", True),
+    'meta_getattr': ('class Meta(type):\n    def __getattr__(cls, name):\n        return lambda *args, **kwargs: 1\nclass Base(metaclass=Meta):\n    pass\n', True),
+    'meta_getattr_none': ('class Meta(type):\n    def __getattr__(cls, name):\n        return None\nclass Base(metaclass=Meta):\n    pass\n', True),
+    'meta_getattr_and_own_none': ('class Meta(type):\n    def __getattr__(cls, name):\n        return lambda *args, **kwargs: 1\nclass Base(metaclass=Meta):\n    {n} = None\n', True),
+    'instance_getattr': ('class Base:\n    def __getattr__(self, name):\n        raise AttributeError(name)\n', True),
+    'slots': ("class Base:\n    __slots__ = ('{n}',)\n", True),
+    'instance_attr_only': ('class Base:\n    def __init__(self):\n        self.{n} = 1\n', False),
+    'annotation_only': ('class Base:\n    {n}: int\n', True),
+    'desc_none': ('class D:\n    def __get__(self, obj, owner=None):\n        return None\nclass Base:\n    {n} = D()\n', True),
+    'desc_falsy': ('class D:\n    def __get__(self, obj, owner=None):\n        return 0\nclass Base:\n    {n} = D()\n', True),
+    'abstract': ('import abc\nclass Base(abc.ABC):\n    @abc.abstractmethod\n    ' + _FN, False),
+    'dict_subclass': ('class Base(dict):\n    pass\n', True),
+    'dataclass_default_none': ('import dataclasses\n@dataclasses.dataclass\nclass Base:\n    {n}: object = None\n', False),
+    'dataclass_factory': ('import dataclasses\n@dataclasses.dataclass\nclass Base:\n    {n}: list = dataclasses.field(default_factory=list)\n', False),
+    'defines_eq': ('class Base:\n    def __eq__(self, other):\n        return NotImplemented\n', True),
+    'parent_defines_eq': ('class G:\n    def __eq__(self, other):\n        return NotImplemented\nclass Base(G):\n    pass\n', True),
+    'eq_and_hash': ('class Base:\n    def __eq__(self, other):\n        return NotImplemented\n    def __hash__(self):\n        return 1\n', True),
+    'hash_restored_in_child': ('class G:\n    def __eq__(self, other):\n        return NotImplemented\nclass Base(G):\n    __hash__ = object.__hash__\n', True),
+}
+_DESC_CACHE = {}
+
+
+def base_source(variant, member):
+    return BASES[variant][0].replace('{n}', member)
+
+
+def _seen(v):
+    return [v is None, bool(v), bool(callable(v))]
+
+
+def describe(variant, member, fname):
+    """the class description the Lean model gets: read off the raw `__mro__` / `__dict__` of the generated classes (of the class
+    and of its metaclass); None when the classes cannot be built or leave the modelled fragment (a data descriptor on the metaclass)"""
+    key = (variant, member, fname)
+    if key in _DESC_CACHE:
+        return _DESC_CACHE[key]
+    desc = None
+    try:
+        ns = {'__name__': 'c18_base_probe'}
+        exec(compile(base_source(variant, member), '<c18 base>', 'exec'), ns)
+        Base = ns['Base']
+        meta = type(Base)
+
+        def via_class(raw):
+            g = getattr(type(raw), '__get__', None)
+            return g(raw, None, Base) if g is not None else raw
+
+        def via_meta(raw):
+            t = type(raw)
+            if hasattr(t, '__set__') or hasattr(t, '__delete__'):
+                raise LookupError('data descriptor on the metaclass')
+            g = getattr(t, '__get__', None)
+            return g(raw, Base, meta) if g is not None else raw
+        mro = [sorted([MEMBER_KEY[n]] + _seen(via_class(C.__dict__[n])) for n in C.__dict__ if n in MEMBER_KEY) for C in Base.__mro__]
+        meta_mro = [sorted([MEMBER_KEY[n]] + _seen(via_meta(M.__dict__[n])) for n in M.__dict__ if n in MEMBER_KEY) for M in meta.__mro__]
+        mg = None
+        if any('__getattr__' in M.__dict__ for M in meta.__mro__):
+            mg = _seen(meta.__getattr__(Base, fname))
+        do = None
+        if any('__dir__' in M.__dict__ for M in meta.__mro__ if M not in (type, object)):
+            do = sorted(MEMBER_KEY[n] for n in dir(Base) if n in MEMBER_KEY)
+        desc = {'mro': mro, 'metaMro': meta_mro, 'metaGetattr': mg, 'dirOverride': do}
+    except Exception:
+        desc = None
+    _DESC_CACHE[key] = desc
+    return desc
+
+
+def base_of(l):
+    """(variant, member) of an overrides layer; layers of older corpus / replay files only say `baseHas`"""
+    if 'base' in l:
+        return l['base'], l['member']
+    return 'plain', ('target' if l.get('baseHas', True) else 'something_else')
+
+
+def class_obs(Base, fname):
+    """what the real interpreter answers to the tests a decorator could make on the class (compared with the model's class lookup)"""
+    v = getattr(Base, fname, None)
+    return [fname in dir(Base), hasattr(Base, fname), fname in Base.__dict__, v is None, bool(v), bool(callable(v))]
+
+
 # ------------------------------------------------------------------ cases
 
 def layer(d, **kw):
-    l = {'d': d, 'renames': kw.get('renames', 'z'), 'baseHas': kw.get('baseHas', True)}
+    l = {'d': d, 'renames': kw.get('renames', 'z'), 'base': kw.get('base', 'plain'), 'member': kw.get('member', 'target')}
     return l
 
 
 def mk(layers, flavour, shape, styles, wkinds, okinds=None, other_flavour=None, member=None, mode='ignore', origin=None):
     """x: everything the Python side needs; c: what the Lean driver gets (derived from x)"""
+    first = next((l for l in layers if l['d'] == 'overrides'), None)
+    if first:          # one `Base` per program: every overrides layer of the stack names the same class
+        layers = [dict(l, base=base_of(first)[0], member=base_of(first)[1]) if l['d'] == 'overrides' else l for l in layers]
     x = {'layers': layers, 'flavour': flavour, 'shape': shape, 'styles': list(styles), 'wkinds': list(wkinds),
          'okinds': list(okinds) if okinds is not None else ['equal'] * (2 * len(wkinds) + 2),
          'other_flavour': other_flavour or flavour, 'member': member, 'mode': mode}
@@ -144,8 +275,14 @@ def wire(x):
     osig = dict(sig)
     layers = []
     for j, l in enumerate(x['layers']):
-        layers.append({'d': l['d'], 'param': [PARAM_ID, PARAM_CLS], 'renames': RENAME_SETS[l['renames']], 'baseHas': l['baseHas'],
-                       'guard': guard_for(x, j) if l['d'] == 'require_kwargs' else NO_GUARD})
+        wl = {'d': l['d'], 'param': [PARAM_ID, PARAM_CLS], 'renames': RENAME_SETS[l['renames']],
+              'guard': guard_for(x, j) if l['d'] == 'require_kwargs' else NO_GUARD}
+        if l['d'] == 'overrides':
+            wl['base'] = describe(*base_of(l), 'target')
+            wl['fname'] = MEMBER_KEY['target']
+            if wl['base'] is None:
+                raise RuntimeError(f'base class variant {base_of(l)} cannot be described')
+        layers.append(wl)
     c = {'kind': 'call',
          'body': {'coro': x['flavour'] == 'async', 'sig': sig, 'script': wscript},
          'other': {'coro': x['other_flavour'] == 'async', 'sig': osig, 'script': oscript},
@@ -175,9 +312,13 @@ def singles(tier):
                 if d == 'rename_kwargs':
                     variants = [layer(d, renames=r) for r in RENAME_SETS]
                 if d == 'overrides':
-                    variants = [layer(d, baseHas=True), layer(d, baseHas=False)]
+                    variants = [layer(d, base='plain', member='target'), layer(d, base='plain', member='something_else')]
+                    # every other kind of base class, with the member under test called like the method and called otherwise
+                    variants += [layer(d, base=v, member=mb) for v in BASES if BASES[v][1] and v != 'plain' for mb in ('target', 'something_else')]
                 for lv in variants:
                     for style in SHAPE_STYLES[shape]:
+                        if d == 'overrides' and lv['base'] != 'plain' and style not in (MAIN_STYLE[shape], KW_STYLE[shape]):
+                            continue
                         if d == 'does_same_as_function':
                             for of in ('sync', 'async'):
                                 for ok in ('same', 'equal', 'diff', 'exc'):
@@ -250,7 +391,9 @@ def random_cases(rng, n):
         # transparent decorators more often, so that deep stacks reach the body
         names = [rng.choice(pool if rng.random() < 0.5 else ['trace', 'timer', 'count_calls', 'deprecated', 'trace_if_returns', 'rename_kwargs', 'require_kwargs', 'count_calls'])
                  for _ in range(depth)]
-        layers = [layer(d, renames=rng.choice(list(RENAME_SETS)), baseHas=rng.random() < 0.85) for d in names]
+        call_ok = [v for v in BASES if BASES[v][1]]
+        layers = [layer(d, renames=rng.choice(list(RENAME_SETS)), base=rng.choice(call_ok + ['plain'] * 10),
+                        member='target' if rng.random() < 0.85 else 'something_else') for d in names]
         n_calls = rng.choice([1, 2, 3, 5, 8, 13, 20])
         styles = [rng.choice(SHAPE_STYLES[shape] + [MAIN_STYLE[shape], KW_STYLE[shape]] * 3) for _ in range(n_calls)]
         wk = [rng.choice(OUTCOMES + ['ret']) for _ in range(2 * n_calls + 2)]
@@ -271,8 +414,40 @@ def counter_histories(rng, tier):
     return out
 
 
+def mk_ovr(variant, member, fname, flavour):
+    """decoration-only program: `@overrides(Base)` on a method called `fname` (dunder names included), Base built from `variant`
+    with `member` as the member under test"""
+    desc = describe(variant, member, fname)
+    if desc is None:
+        return None
+    sig = SHAPES['m_method_star'][3]
+    x = {'ovr': {'base': variant, 'member': member, 'fname': fname}, 'flavour': flavour}
+    c = {'kind': 'call', 'body': {'coro': flavour == 'async', 'sig': sig, 'script': []},
+         'other': {'coro': False, 'sig': sig, 'script': []},
+         'layers': [{'d': 'overrides', 'param': [PARAM_ID, PARAM_CLS], 'renames': [], 'guard': NO_GUARD, 'base': desc, 'fname': MEMBER_KEY[fname]}],
+         'member': None, 'self': SELF_ID, 'calls': []}
+    return {'m': 'utility', 'c': c, 'x': x}
+
+
+def ovr_cases(tier):
+    """the finite grid: every kind of base class x member under test {the function's name, every other name of the table} x
+    function name (ordinary, dunder, names the metaclass `type` / `object` / `dict` bind)"""
+    out, skipped = [], 0
+    for variant in BASES:
+        for fname in FNAMES:
+            members = [fname, 'something_else'] + ([m for m in FNAMES if m != fname] if tier == 'thorough' else [])
+            for member in members:
+                for flavour in (('sync', 'async') if member == fname else ('sync',)):
+                    c = mk_ovr(variant, member, fname, flavour)
+                    if c is None:
+                        skipped += 1
+                    else:
+                        out.append(c)
+    return out
+
+
 def cases(rng, tier):
-    out = attrs_cases() + singles(tier) + members(tier) + pairs(tier) + counter_histories(rng, tier)
+    out = attrs_cases() + singles(tier) + members(tier) + pairs(tier) + counter_histories(rng, tier) + ovr_cases(tier)
     out += random_cases(rng, 600 if tier == 'quick' else 30000)
     return out
 
@@ -408,8 +583,8 @@ def program_source(x):
         src += 'class KT:\n' + fn_source('target', shape, flavour, 'w', pre, '    ')
         src += f"@{m['cdeco']}\nclass K:\n" + fn_source('target', shape, flavour, 'w', pre, '    ')
         return src
-    base_has = all(l['baseHas'] for l in x['layers'] if l['d'] == 'overrides')
-    src += 'class Base:\n    def ' + ('target' if base_has else 'something_else') + '(self):\n        pass\n'
+    first = next((l for l in x['layers'] if l['d'] == 'overrides'), None)
+    src += base_source(*base_of(first)) if first else base_source('plain', 'target')
     src += fn_source('other', shape, x['other_flavour'], 'o', [])
     decos = [deco_line(l) for l in x['layers']]
     if shape == 'method':
@@ -420,6 +595,14 @@ def program_source(x):
         src = src.replace('def twin(', 'def twin(')   # the twin carries the same docstring but its own name
         src += fn_source('target', shape, flavour, 'w', decos)
     return src
+
+
+def ovr_source(o, flavour):
+    a = 'async ' if flavour == 'async' else ''
+    return (IMPORTS + base_source(o['base'], o['member']) +
+            'def _keep(f):\n    H.kept = f\n    return f\n'
+            f"class K(Base):\n    @overrides(Base)\n    @_keep\n    {a}def {o['fname']}(self, *args, **kwargs):\n"
+            '        """doc of target"""\n        return None\n')
 
 
 def attrs_source(d, flavour):
@@ -541,6 +724,18 @@ def run_impl(cases):
                 out.append({'deco': None, 'attrs': [f.__name__ == 'target', f.__qualname__ == 'target', f.__doc__ == 'doc of target', f.__module__ == name],
                             'coro': inspect.iscoroutinefunction(f)})
                 continue
+            if 'ovr' in x:
+                o = x['ovr']
+                H.kept = None
+                mod, name, exc = progs.load(ovr_source(o, x['flavour']))
+                res = {'deco': exc, 'obs': class_obs(mod.Base, o['fname']) if hasattr(mod, 'Base') else None}
+                if exc is None:
+                    f0 = mod.K.__dict__.get(o['fname'])
+                    res['same'] = f0 is H.kept and f0 is not None
+                    res['coro'] = inspect.iscoroutinefunction(f0)
+                H.kept = None
+                out.append(res)
+                continue
             H.reset_objects()
             wscript = outcome_script(x['wkinds'])
             H.script = {'w': wscript, 'o': other_script(x['okinds'], wscript)}
@@ -549,6 +744,8 @@ def run_impl(cases):
             mod, name, exc = progs.load(program_source(x))
             shape, m = x['shape'], x['member']
             res = {'deco': exc}
+            if any(l['d'] == 'overrides' for l in x['layers']) and hasattr(mod, 'Base'):
+                res['obs'] = class_obs(mod.Base, 'target')
             if exc and not hasattr(mod, 'KT' if (m or shape == 'method') else 'twin'):
                 # not even the undecorated twin exists: the program (or the library) failed to import
                 res['twin'] = None
@@ -656,8 +853,34 @@ def judge(case, impl, model):
             pfail = f"inspect.iscoroutinefunction({x['attrs']}(f)) is {impl['coro']} for a{'n async' if x['flavour'] == 'async' else ''} function"
         return {'corr': corr, 'pfail': pfail, 'tag': tag, 'nontrivial': True, 'why': '' if corr else f'model says meta={m["meta"]} coro={m["coro"]}'}
 
+    if 'ovr' in x:
+        o = x['ovr']
+        tag = f"overrides-only/{o['base']}/{'own-name' if o['member'] == o['fname'] else 'other-name'}"
+        md = m['deco'][2] if m['deco'] else None
+        sd = s['deco'][2] if s['deco'] else None
+        why = []
+        if impl.get('obs') is None:
+            return {'corr': False, 'pfail': f"importing the generated program raised {impl['deco']} before the base class was defined",
+                    'tag': tag, 'why': 'program import failed', 'nontrivial': False}
+        if impl['deco'] != md:
+            why.append(f"decoration: impl {impl['deco']} model {md}")
+        if [impl['obs']] != model['classObs']:
+            why.append(f"class lookup [in dir, hasattr, in __dict__, getattr is None, truthy, callable]: real {impl['obs']} model {model['classObs']}")
+        if model['specHasName'] != [impl['obs'][0]]:
+            why.append(f"specification's listing of the class ({model['specHasName']}) differs from dir() ({impl['obs'][0]})")
+        if impl['deco'] is None and md is None and (impl['coro'] != m['coro'] or not m['meta']):
+            why.append(f"identity layer: impl coro {impl['coro']}, model coro {m['coro']} meta {m['meta']}")
+        pfail = None
+        if impl['deco'] != sd:
+            pfail = f"@overrides(Base) on `def {o['fname']}` raised {impl['deco']}, expected {sd} (base class variant {o['base']}, member under test `{o['member']}`)"
+        elif impl['deco'] is None and not impl['same']:
+            pfail = 'overrides did not hand back the decorated function itself'
+        return {'corr': not why, 'pfail': pfail, 'finding': None, 'tag': tag, 'nontrivial': True, 'why': '; '.join(why)}
+
     names = [l['d'] for l in x['layers']] or [x['member']['cdeco'] + ':' + x['member']['kind'] + ':' + x['member']['access']]
     tag = '+'.join(names) if len(names) < 3 else f'depth{len(names)}'
+    if names == ['overrides']:
+        tag += ':' + '/'.join(base_of(x['layers'][0]))
     tag += f"/{x['flavour']}/{x['shape']}"
     why = []
     pfail = None
@@ -677,6 +900,10 @@ def judge(case, impl, model):
     sd = s['deco'][2] if s['deco'] else None
     if impl['deco'] != md:
         why.append(f"decoration: impl {impl['deco']} model {md}")
+    if 'obs' in impl and any(o != impl['obs'] for o in model['classObs']):
+        why.append(f"class lookup [in dir, hasattr, in __dict__, getattr is None, truthy, callable]: real {impl['obs']} model {model['classObs']}")
+    if 'obs' in impl and any(h != impl['obs'][0] for h in model['specHasName']):
+        why.append(f"specification's listing of the class ({model['specHasName']}) differs from dir() ({impl['obs'][0]})")
     if impl['deco'] != sd:
         pfail = f"applying the decorators raised {impl['deco']}, expected {sd}"
     if impl['deco'] is None and md is None:
@@ -721,7 +948,9 @@ def extra_coverage(results):
     calls = 0
     for (c, i, m, j) in results:
         x = c['x']
-        if 'attrs' not in x:
+        if 'ovr' in x:
+            progs.add(json.dumps(x, sort_keys=True))
+        elif 'attrs' not in x:
             progs.add(json.dumps([x['layers'], x['flavour'], x['shape'], x['member'], x['other_flavour']], sort_keys=True))
             calls += len(x['styles'])
     return {'generated_programs': len(progs), 'calls_executed_on_decorated_and_twin': calls}
